@@ -304,7 +304,12 @@ func c02Run(c *hx.Ctx, tier, unit string) {
 				"modified image: content replaced, genuine signer kept, another validly signing signer vouches for the new content (placed first)",
 				"modified image: content replaced, genuine signer kept, another validly signing signer vouches for the new content (placed last)",
 				"modified image: content replaced, genuine signer kept, decoy signer entry carries the new digest (placed first)",
-				"modified image: content replaced, genuine signer kept, decoy signer entry carries the new digest (placed last)"} {
+				"modified image: content replaced, genuine signer kept, decoy signer entry carries the new digest (placed last)",
+				"modified image: content replaced, genuine signer kept, forged entry naming the same certificate (garbage signature) carries the new digest (placed first)",
+				"modified image: content replaced, genuine signer kept, forged entry naming the same certificate (garbage signature) carries the new digest (placed last)",
+				"modified image: content replaced, genuine signer kept, forged entry naming the same certificate (genuine signature value) carries the new digest (placed first)",
+				"modified image: content replaced, genuine signer kept, forged entry naming the same certificate (genuine signature value) carries the new digest (placed last)",
+				"modified image: content replaced, genuine signer kept, the new digest supplied as an unsigned messageDigest attribute"} {
 				t, err := p7Open(sig)
 				if err != nil {
 					continue
@@ -326,9 +331,22 @@ func c02Run(c *hx.Ctx, tier, unit string) {
 							a.Children[1].Children[0].Val = md
 						}
 					}
+					if strings.Contains(variant, "unsigned messageDigest") {
+						t.si.Children = append(t.si.Children, der.Cons(0xa1, der.Cons(0x30, der.Prim(0x06, refp7.OIDMessageDigest), der.Cons(0x31, der.Prim(0x04, md)))))
+						c02Judge(c, c02Embed(mod, t.root.Encode()), variant, certs, false)
+						continue
+					}
 					if strings.Contains(variant, "decoy") {
 						sv := n.Children[1].Children[1].Val
 						sv[len(sv)-1] ^= 0x5a
+					} else if strings.Contains(variant, "same certificate") {
+						if strings.Contains(variant, "garbage") {
+							for j, ch := range n.Children {
+								if ch.Tag == 0x04 {
+									n.Children[j].Val = bytes.Repeat([]byte{0x01}, len(ch.Val))
+								}
+							}
+						}
 					} else {
 						n.Children[1].Children[0] = derMustParse(keys.C(2).RawIssuer).Clone()
 						n.Children[1].Children[1].Val = serialBytes(keys.C(2).SerialNumber)
